@@ -29,6 +29,11 @@ def one(d):
     try:
         a = sh("git apply %s" % os.path.join(d, "patch.diff"), cwd=wt)
         if a.returncode != 0:
+            # later repairs changed the context: three-way merge with the blobs the patch was made against
+            a = sh("git apply --3way %s" % os.path.join(d, "patch.diff"), cwd=wt)
+            if a.returncode == 0:
+                sh("git reset -q", cwd=wt)
+        if a.returncode != 0:
             out["apply"] = "failed: " + a.stdout[-200:]
             return out
         for c in checks[:2]:
